@@ -155,6 +155,15 @@ def r1_coverage(ctx):
         raise Undecided("_hash does not feed obj2bytes(<list name>) to the "
                         "digest")
     listvar = inner[0].args[0].id
+    # `hashlist = items` (the list was built under another name)
+    for _ in range(3):
+        al = [st.value.id for st in fn.body if isinstance(st, ast.Assign)
+              and norm(st.targets[0]) == listvar
+              and isinstance(st.value, ast.Name)]
+        if len(al) == 1:
+            listvar = al[0]
+        else:
+            break
     ctx.check(any(inner[0] in list(ast.walk(d)) for d in dig), dig[0],
               f"digest of obj2bytes({listvar})",
               "the digest is not computed from the encoded settings list")
